@@ -349,6 +349,12 @@ func registerIntrinsics(e *Engine) {
 			p.goPanic(fr, pos, "nil pointer dereference (SetBytes)")
 		}
 		s := args[1].(SliceV)
+		if s.O != nil && s.Len > 0 && s.Off == 0 {
+			if x, ok := p.bigBlobs[s.O]; ok && s.Len == len(p.backing(s.O).E) {
+				z.Store(BigV{x})
+				return z
+			}
+		}
 		var bs []*Term
 		for i := 0; i < s.Len; i++ {
 			bs = append(bs, p.sliceGet(s, i).(*Term))
@@ -705,6 +711,11 @@ func registerIntrinsics(e *Engine) {
 				}
 				return p.deepEq(ba.snap, bb.snap, 0)
 			}
+			xa, ok1 := p.bigBlobs[a.O]
+			xb, ok2 := p.bigBlobs[b.O]
+			if ok1 && ok2 && a.Off == 0 && b.Off == 0 && a.Len == len(p.backing(a.O).E) && b.Len == len(p.backing(b.O).E) {
+				return p.tb.Eq(xa, xb)
+			}
 		}
 		return p.eqValue(StrV{p.sliceTerms(args[0].(SliceV))}, StrV{p.sliceTerms(args[1].(SliceV))})
 	}
@@ -970,6 +981,17 @@ func (p *Path) bigBytes(fr *frame, x *Term, pos token.Pos) Value {
 		return SliceV{O: p.newObj(&ArrayV{E: arr, Mut: true}, nil, "big.Bytes"), Len: len(b), Cap: len(b)}
 	}
 	tb := p.tb
+	if p.E.Cfg.BigBlob {
+		// ideal encoding: zero has no bytes, any other value a non-empty opaque byte string that determines it
+		p.stub("big.Int.Bytes / SetBytes => ideal encoding (opaque bytes bound to the value; zero = no bytes)")
+		if p.forkBool(tb.Eq(x, IntConst64(0)), fr, pos) {
+			return SliceV{O: p.newObj(&ArrayV{E: nil, Mut: true}, nil, "big.Bytes"), Len: 0, Cap: 0}
+		}
+		b := p.uf("bigbytes", []*Term{x}, []Sort{BV(8)})[0]
+		o := p.newObj(&ArrayV{E: []Value{b}, Mut: true}, nil, "big-blob")
+		p.bigBlobs[o] = x
+		return SliceV{O: o, Len: 1, Cap: 1}
+	}
 	maxB := p.E.Cfg.MaxBigBytes
 	if maxB == 0 {
 		maxB = 4
